@@ -659,8 +659,12 @@ func (m *Memberlist) Leave(timeout time.Duration) error {
 
 		m.nodeLock.Lock()
 		state, ok := m.nodeMap[m.config.Name]
-		incarnation := state.Incarnation
-		name := state.Name
+		var incarnation uint32
+		var name string
+		if ok {
+			incarnation = state.Incarnation
+			name = state.Name
+		}
 		m.nodeLock.Unlock()
 		if !ok {
 			m.logger.Printf("[WARN] memberlist: Leave but we're not in the node map.")
